@@ -216,6 +216,42 @@ func oracleAccess(rules map[string]rule, q req) string {
 	return fmt.Sprintf("%v %d", any, closure(perms))
 }
 
+// explainedByTrailingAny: does the implementation's answer equal the brute-force answer once some
+// non-empty set of "suspect" rules is ignored?  A rule is suspect for a request when its host
+// expression ends in '%' and the request host matches the expression without that '%' (the final
+// '%' matches the empty string, i.e. the request ends exactly before it) and the other columns match.
+func explainedByTrailingAny(rules map[string]rule, q req, got string) bool {
+	var suspects []string
+	for k, r := range rules {
+		ht := canonTokens(r.H)
+		if len(ht) == 0 || ht[len(ht)-1].kind != 2 {
+			continue
+		}
+		if like(r.D, q.D, aiSort) && like(r.B, q.B, aiSort) && like(r.U, q.U, binSort) && likeTok(ht[:len(ht)-1], []rune(q.H), aiSort) {
+			suspects = append(suspects, k)
+		}
+	}
+	if len(suspects) == 0 || len(suspects) > 10 {
+		return false
+	}
+	sort.Strings(suspects)
+	for mask := 1; mask < 1<<len(suspects); mask++ {
+		sub := map[string]rule{}
+		for k, r := range rules {
+			sub[k] = r
+		}
+		for i, k := range suspects {
+			if mask&(1<<i) != 0 {
+				delete(sub, k)
+			}
+		}
+		if oracleAccess(sub, q) == got {
+			return true
+		}
+	}
+	return false
+}
+
 func oracleNamespace(rows []rule, q req) bool {
 	var m1 []rule
 	for _, r := range rows {
@@ -315,6 +351,7 @@ func (x *runner) ask(format string, a ...any) string { return x.m.Ask(fmt.Sprint
 
 const keyEmpty = "like-empty-input"
 const keyReqPattern = "request-parsed-as-pattern"
+const keyTrailingAny = "trailing-any-at-node-end"
 
 // like: FoldExpression, ParseExpression and the flat Match against the textbook LIKE.
 func (x *runner) runLike(k kase) {
@@ -442,7 +479,10 @@ func (x *runner) runAccess(k kase) {
 		one := kase{Kind: "access", Ops: k.Ops, Reqs: []req{q}}
 		if got != want {
 			what := fmt.Sprintf("Access.Match(%q,%q,%q,%q) = %s after %d ops, longest-match over the rule list by LIKE says %s", q.D, q.B, q.U, q.H, got, len(k.Ops), want)
-			if hasPatternChar(q.D) || hasPatternChar(q.B) || hasPatternChar(q.U) || hasPatternChar(q.H) {
+			if explainedByTrailingAny(rules, q, got) {
+				e.Rep.Hit("known:" + keyTrailingAny)
+				e.Rep.Known(keyTrailingAny, what+" (a rule whose host ends in '%' is not reported when the request ends exactly where the trie has a node boundary before that '%')", one)
+			} else if hasPatternChar(q.D) || hasPatternChar(q.B) || hasPatternChar(q.U) || hasPatternChar(q.H) {
 				e.Rep.Hit("known:" + keyReqPattern)
 				e.Rep.Known(keyReqPattern, what+" (the request strings are parsed as patterns: '_' '%' '\\' in a name are not literal)", one)
 			} else {
@@ -540,26 +580,53 @@ func (x *runner) runNamespace(k kase) {
 	}
 }
 
-// the stored form of a namespace row: folded, lower-cased (own implementation: canonical tokens
-// rendered back to a string)
+// the stored form of a namespace row: the expression text with every wildcard run that contains a
+// '%' rewritten to "all its '_' then one '%'", escapes and a trailing lone '\\' kept as written,
+// then lower-cased (own item-level implementation of the documented folding).
 func renderCanon(p string, lower bool) string {
-	var sb strings.Builder
-	for _, t := range canonTokens(p) {
-		switch t.kind {
-		case 1:
-			sb.WriteRune('_')
-		case 2:
-			sb.WriteRune('%')
+	type item struct {
+		text string
+		kind int // 0 other, 1 '_', 2 '%'
+	}
+	var items []item
+	rs := []rune(p)
+	for i := 0; i < len(rs); i++ {
+		switch {
+		case rs[i] == '\\' && i+1 < len(rs):
+			items = append(items, item{string(rs[i : i+2]), 0})
+			i++
+		case rs[i] == '_':
+			items = append(items, item{"_", 1})
+		case rs[i] == '%':
+			items = append(items, item{"%", 2})
 		default:
-			if t.r == '_' || t.r == '%' || t.r == '\\' {
-				sb.WriteRune('\\')
-			}
-			if lower {
-				sb.WriteRune(unicode.ToLower(t.r))
-			} else {
-				sb.WriteRune(t.r)
-			}
+			items = append(items, item{string(rs[i]), 0})
 		}
+	}
+	var sb strings.Builder
+	for i := 0; i < len(items); {
+		if items[i].kind == 0 {
+			sb.WriteString(items[i].text)
+			i++
+			continue
+		}
+		j, nu, anyp := i, 0, false
+		for j < len(items) && items[j].kind != 0 {
+			if items[j].kind == 1 {
+				nu++
+			} else {
+				anyp = true
+			}
+			j++
+		}
+		sb.WriteString(strings.Repeat("_", nu))
+		if anyp {
+			sb.WriteString("%")
+		}
+		i = j
+	}
+	if lower {
+		return strings.ToLower(sb.String())
 	}
 	return sb.String()
 }
@@ -588,6 +655,38 @@ func genRule(r *hx.Rng, few bool) op {
 		return genPattern(r)
 	}
 	return op{D: p(), B: p(), U: p(), H: p(), P: uint64(hx.Pick(r, []int{1, 2, 4, 8, 0, 3, 6}))}
+}
+
+// deriveRule: a sibling of an existing rule — one column extended, shortened or changed in its last
+// character (prefix rules, rules diverging inside a column, trailing '%' next to a longer literal):
+// the shapes that make the trie split, share and merge nodes.
+func deriveRule(r *hx.Rng, o op) op {
+	n := o
+	col := hx.Pick(r, []*string{&n.D, &n.B, &n.U, &n.H, &n.H, &n.H})
+	rs := []rune(*col)
+	switch r.Intn(6) {
+	case 0:
+		rs = append(rs, '%')
+	case 1:
+		rs = append(rs, hx.Pick(r, plain))
+	case 2:
+		if len(rs) > 0 {
+			rs = rs[:len(rs)-1]
+		}
+	case 3:
+		if len(rs) > 0 {
+			rs[len(rs)-1] = hx.Pick(r, alphabet)
+		} else {
+			rs = append(rs, '_')
+		}
+	case 4:
+		rs = append(rs, '_')
+	default:
+		rs = append([]rune{hx.Pick(r, alphabet)}, rs...)
+	}
+	*col = string(rs)
+	n.P = uint64(hx.Pick(r, []int{1, 2, 4, 8, 0, 3, 6}))
+	return n
 }
 
 func permutations(n int) [][]int {
@@ -683,7 +782,12 @@ func main() {
 	run(kase{Kind: "namespace", Ops: []op{{D: "a", B: "a", U: "_", H: "a"}}, Reqs: []req{{"a", "a", "", "a"}}})
 	run(kase{Kind: "access", Ops: []op{{D: "a", B: "a\\_b", U: "a", H: "a", P: 1}}, Reqs: []req{{"a", "a_b", "a", "a"}}})
 
-	r := e.Rng
+	run(kase{Kind: "access", Ops: []op{{D: "%", B: "%", U: "%", H: "%", P: 2}, {D: "%", B: "%", U: "%", H: "ab", P: 1}}, Reqs: []req{{"a", "a", "a", ""}}})
+	run(kase{Kind: "access", Ops: []op{{D: "a", B: "a", U: "a", H: "b%", P: 1}, {D: "a", B: "a", U: "a", H: "ba", P: 2}}, Reqs: []req{{"a", "a", "a", "b"}}})
+
+	// NB hx.NewRng(seed) puts all seeds on one splitmix orbit, offset by `seed` draws, so consecutive
+	// seeds replay almost the same stream; Fork() jumps to an unrelated offset.
+	r := e.Rng.Fork()
 	nLike := e.N(6000, 120000)
 	for i := 0; i < nLike; i++ {
 		k := kase{Kind: "like", Col: hx.Pick(r, []string{"ai", "ai", "bin"})}
@@ -697,13 +801,17 @@ func main() {
 		}
 		run(k)
 	}
-	nScen := e.N(150, 2500)
+	nScen := e.N(220, 3500)
 	for i := 0; i < nScen; i++ {
 		kind := hx.Pick(r, []string{"access", "access", "namespace"})
 		n := r.Range(1, 6)
 		var rs []op
 		for j := 0; j < n; j++ {
-			rs = append(rs, genRule(r, true))
+			if j > 0 && r.Chance(3, 5) {
+				rs = append(rs, deriveRule(r, hx.Pick(r, rs)))
+			} else {
+				rs = append(rs, genRule(r, true))
+			}
 		}
 		var orders [][]int
 		if n <= 3 {
